@@ -16,7 +16,7 @@ class Lockstep:
         c = S.const
         self.N = S.N_vials_total
         self.G = c09.geometric(cfg["arr"], *cfg["shape"])
-        self.hshelf = hshelf
+        self._hshelf = hshelf
         self.shelf = np.asarray(S.opcond.tempProfile(S.dt), dtype=float)
         self.n = int(math.ceil(S.opcond.t_tot / S.dt)) + 1
         self.T = np.ones(self.N) * S.T_k_0
@@ -41,6 +41,13 @@ class Lockstep:
         # each vial gets a random "wish" step after which the harness lets it nucleate
         self.wish = np.array([rng.randint(0, self.n - 1) for _ in range(self.N)])
         self.cand_counts = []
+
+    @property
+    def hshelf(self):
+        # the shelf coefficients of THIS run (read when first needed: run() has built them before the time loop)
+        if self._hshelf is None:
+            self._hshelf = np.broadcast_to(np.asarray(self.S._H_shelf, dtype=float), (self.N,)).copy()
+        return self._hshelf
 
     def advance_solid_only(self):
         """steps in which no vial is liquid consume no draws"""
